@@ -373,3 +373,129 @@ theorem satLenF_spec {t : Tbl} (hw : WF t) {ls : List Nat} (hs : ls.Pairwise (·
           · exact hd2 x c hx
 
 end DD
+
+namespace DD
+
+/-! ### `count` -/
+
+theorem lookup_filter_ne (L : List (Nat × Nat)) {l m : Nat} (h : l ≠ m) :
+    (L.filter (fun p => decide (p.1 ≠ m))).lookup l = L.lookup l := by
+  induction L with
+  | nil => rfl
+  | cons p L ih =>
+    obtain ⟨k, v⟩ := p
+    by_cases hk : k = m
+    · subst hk
+      rw [List.filter_cons_of_neg (by simp), ih, List.lookup_cons]
+      have : (l == k) = false := by simpa using h
+      rw [this]
+    · rw [List.filter_cons_of_pos (by simpa using hk), List.lookup_cons, List.lookup_cons, ih]
+
+theorem lookup_zipIdx {ls : List Nat} (hs : ls.Pairwise (· < ·)) (slack : Nat) {l : Nat} (hl : l ∈ ls) :
+    ∀ start, ((ls.zipIdx start).map fun (p : Nat × Nat) => (p.1, p.2 + slack)).lookup l =
+      some (start + (ls.length - (lvGe ls l).length) + slack) := by
+  induction ls with
+  | nil => simp at hl
+  | cons x xs ih =>
+    intro start
+    rw [List.pairwise_cons] at hs
+    rw [List.zipIdx_cons, List.map_cons, List.lookup_cons]
+    by_cases hx : l = x
+    · subst hx
+      have : lvGe (l :: xs) l = l :: xs := by
+        unfold lvGe; apply List.filter_eq_self.mpr
+        intro y hy
+        rcases List.mem_cons.mp hy with h | h
+        · simp [h]
+        · have := hs.1 y h; simp; omega
+      simp [this]
+    · have hl' : l ∈ xs := by
+        rcases List.mem_cons.mp hl with h | h
+        · exact absurd h hx
+        · exact h
+      have hlt := hs.1 l hl'
+      have hne : (l == x) = false := by simpa using hx
+      have : lvGe (x :: xs) l = lvGe xs l := by
+        unfold lvGe; rw [List.filter_cons_of_neg (by simp; omega)]
+      simp only [hne]
+      rw [ih hs.2 hl' (start + 1), this]
+      have := lvGe_length_le xs l
+      simp only [List.length_cons]
+      congr 1; omega
+
+theorem count_main {t : Tbl} (hw : WFU t) (u : Int) (hm : t.Mem u) :
+    ∃ ls, supportLevels t u = .ok ls ∧ ls.Pairwise (· < ·) ∧ (∀ i, i ∈ ls ↔ dependsOn t u i) ∧
+      (∀ (n : Nat) (a0 : Asg), ls.length ≤ n →
+        count t u (some (n : Int)) = .ok (cnt (den t u) ls a0 * 2 ^ (n - ls.length))) ∧
+      (∀ a0 : Asg, count t u none = .ok (cnt (den t u) ls a0)) ∧
+      (∀ n : Int, n < ls.length → count t u (some n) = .error .value) := by
+  have hW := hw.toWF
+  obtain ⟨ls, e, hs, hdep⟩ := supportLevels_spec' hw u hm
+  have hb : ∀ x ∈ ls, x < t.nvars := fun x hx => dependsOn_lt_nvars hw hm ((hdep x).mp hx)
+  have hreach : ∀ x n, Reach t u.natAbs x → t.succ[x]? = some n → n.lvl ∈ ls := by
+    intro x n hr hn
+    exact (hdep _).mpr ((dependsOn_iff_reach hw _ u hm).mpr ⟨x, n, hr, hn, rfl⟩)
+  have main : ∀ (n : Nat) (a0 : Asg), ls.length ≤ n →
+      count t u (some (n : Int)) = .ok (cnt (den t u) ls a0 * 2 ^ (n - ls.length)) := by
+    intro n a0 hn
+    have hslack : ¬ ((n : Int) - (ls.length : Int) < 0) := by omega
+    have htn : ((n : Int) - (ls.length : Int)).toNat = n - ls.length := by omega
+    have hmap : MapOK t ls (n - ls.length)
+        ((t.nvars, n) :: ((ls.zipIdx.map fun (p : Nat × Nat) => (p.1, p.2 + (n - ls.length))).filter
+          (fun p => decide (p.1 ≠ t.nvars)))) := by
+      intro l hl
+      rcases hl with hl | hl
+      · have hne : l ≠ t.nvars := by have := hb l hl; omega
+        have hne' : (l == t.nvars) = false := by simpa using hne
+        rw [List.lookup_cons, hne', lookup_filter_ne _ hne, lookup_zipIdx hs _ hl 0]
+        simp
+      · subst hl
+        rw [List.lookup_cons]
+        simp [lvGe_top hb]; omega
+    obtain ⟨d', e', _⟩ := satLenF_spec hW hs hb a0 hmap (t.nvars + 2) u {} hm (by omega) hreach
+      (by intro x c h; simp at h)
+    have hall : ls.length + (n - ls.length) = n := by omega
+    rw [hall] at e'
+    have hlu : t.levelOf u ∈ ls ∨ t.levelOf u = t.nvars := by
+      rcases hm.cases with h1 | ⟨h1, nd, hnd⟩
+      · exact Or.inr (levelOf_term t u h1)
+      · rw [levelOf_node t u nd h1 hnd]; exact Or.inl (hreach _ nd (Reach.refl _) hnd)
+    have hlook := hmap _ hlu
+    unfold count
+    simp only [(Tbl.mem_iff t u).mpr hm, e, Bool.not_true, Bool.false_eq_true, if_false,
+      Option.getD_some, hslack, htn, Int.toNat_natCast, ne_eq, decide_not]
+    simp only [ne_eq, decide_not] at e' hlook
+    rw [e']
+    simp only [Tbl.levelOf?_eq t u hm, hlook]
+    -- arithmetic: the skipped levels above `u`
+    congr 1
+    have hsplit := lvGe_split hs (Nat.zero_le (t.levelOf u))
+    rw [lvGe_zero] at hsplit
+    have hcnt : cnt (den t u) ls a0 = 2 ^ (lvMid ls 0 (t.levelOf u)).length * cntFrom t ls a0 u := by
+      conv => lhs; rw [hsplit]
+      rw [cnt_skip]
+      · rfl
+      · intro v hv b x
+        have := (List.mem_filter.mp hv).2
+        simp at this
+        exact den_indep' t hW u hm v x b this
+    have hlen : ls.length = (lvMid ls 0 (t.levelOf u)).length + (lvGe ls (t.levelOf u)).length := by
+      conv => lhs; rw [hsplit]
+      rw [List.length_append]
+    rw [hcnt]
+    have : ls.length - (lvGe ls (t.levelOf u)).length + (n - ls.length) =
+        (lvMid ls 0 (t.levelOf u)).length + (n - ls.length) := by omega
+    rw [this, Nat.pow_add, Nat.mul_comm (2 ^ _) (cntFrom t ls a0 u), Nat.mul_assoc]
+  refine ⟨ls, e, hs, hdep, main, ?_, ?_⟩
+  · intro a0
+    have := main ls.length a0 (Nat.le_refl _)
+    simp only [Nat.sub_self, Nat.pow_zero, Nat.mul_one] at this
+    rw [← this]
+    unfold count
+    simp only [e, Option.getD_some, Option.getD_none]
+  · intro n hn
+    unfold count
+    have : (n - (ls.length : Int) < 0) := by omega
+    simp [(Tbl.mem_iff t u).mpr hm, e, this]
+
+end DD
